@@ -24,7 +24,7 @@ TRANSPORT_WORDS = ("EOF", "closed", "broken pipe", "recvReply", "sendCmd", "too 
 
 def exec_op(r):
     k = r.choice(["true", "true", "exit3", "sig9", "sleepcancel", "relmissing", "absmissing", "noexec", "badelf", "script",
-                  "emptyargv", "cbfail", "cbfail"])
+                  "emptyargv", "cbfail", "cbfail", "exitcross", "exitcross", "exitcross", "badfilter", "badfilter", "goodfilter"])
     sync = r.choice([None, "ok"])
     sa = r.random() < 0.4
     o = {"op": "exec", "_class": k, "sync_after": sa}
@@ -38,6 +38,18 @@ def exec_op(r):
         o["args"], o["_expect"] = [T, "sig", "9"], [2]
     elif k == "sleepcancel":
         o["args"], o["cancel_ms"], o["_expect"] = [T, "sleep", "3000"], r.choice([0, 1, 5, 30]), [2, 8]
+    elif k == "exitcross":
+        # the cancellation arrives about when the program ends by itself: either verdict is right, the protocol must stay in step
+        if r.random() < 0.5:
+            o["args"], o["cancel_ms"], o["_expect"] = [T, "exit", "0"], r.choice([1, 2, 3, 4, 5, 6, 8, 10]), [1, 2, 8]
+        else:
+            ms = r.choice([5, 10, 20])
+            o["args"], o["cancel_ms"], o["_expect"] = [T, "sleep", str(ms)], ms + r.choice([2, 3, 4, 5, 6, 8]), [1, 2, 8]
+    elif k == "badfilter":
+        # a seccomp filter the kernel refuses: the launch fails where the filter is loaded (before or after the sync, depending on the environment)
+        o["args"], o["seccomp"], o["_expect"] = ["/bin/true"], "bad", [8]
+    elif k == "goodfilter":
+        o["args"], o["seccomp"], o["_expect"] = ["/bin/true"], "ok", [1]
     elif k == "relmissing":
         o["args"], o["_expect"] = ["no_such_command_xyz"], [8]
     elif k == "absmissing":
@@ -67,7 +79,8 @@ def run(c):
     cases = []
     nh = 40 if c.quick() else 400
     for hid in range(nh):
-        ops = [{"op": "newenv"}, dict(plant)]
+        # every other environment unshares the cgroup namespace before exec: capabilities are dropped and the filter is loaded after the sync
+        ops = [{"op": "newenv", "unshare_cgroup": hid % 2 == 1}, dict(plant)]
         for _ in range(r.randint(1, 30)):
             k = r.random()
             if k < 0.5:
@@ -142,6 +155,15 @@ def run(c):
     for i in c.parse_nums(c.parse_printed(c.coq_eval("logs", body, timeout=1200), "M").replace("%N", "")):
         dis.append({"relation": "logs_ok (wire logs of both endpoints accepted by host_steps / cont_steps)",
                     "host_log": obs[i]["obs"][-1].get("host"), "container_log": obs[i]["obs"][-1].get("cont")})
+    # ---- cancellations aimed at the instant the program ends
+    rounds = 300 if c.quick() else 3000
+    cr = c.run_harness(exe, [{"id": 0, "ops": [{"op": "newenv"}, {"op": "execcross", "rounds": rounds}, {"op": "ping"}]}], env=env, timeout=900)[0]["obs"]
+    c.evaluations += cr[1].get("rounds_done", 0)
+    c.cov["cancel_crossing_rounds"] = cr[1].get("rounds_done", 0)
+    c.cov["cancel_crossing_statuses"] = cr[1].get("statuses")
+    if cr[1].get("hang") or cr[1].get("fail") or cr[2].get("err"):
+        c.finding_or_violation({"kind": "rpc", "what": "a call is not answered after a run whose cancellation crossed its own end", "class": "exitcross"},
+                               {"history": "Execve(exit 0) cancelled at about its duration, then Ping; repeated", "observed": cr[1:3]}, klass="exitcross")
     # ---- the oversize request (known finding): its own environment
     big = c.run_harness(exe, [{"id": 0, "ops": [{"op": "newenv"}, {"op": "exec", "args": ["/bin/true"], "env_bytes": 40000}, {"op": "ping"}, {"op": "newenv"}]}],
                         env=env)[0]["obs"]
